@@ -320,6 +320,9 @@ func init() {
 				EnrichWorkload(r.Fork("enrich"), w, dir)
 				w.VeneerDirs, w.RepoTpl = nil, ""
 			}
+			if sr := r.Side("hand-written"); mode == "nested" && sr.Chance(1, 6) {
+				AddHandWrittenShapes(sr, w)
+			}
 			p := &c06Payload{W: w, Mode: mode, Sched: simrt.Schedule{Default: Pick(r, []simrt.Policy{simrt.Canonical, simrt.Reverse, simrt.Shuffle}), Seed: r.U64()}}
 			res.Nontrivial = append(res.Nontrivial, ShaStr(w.Fingerprint()))
 			found := c06Check(ctx, res, dir, p)
